@@ -29,11 +29,11 @@ ASSUMPTIONS = [
 ]
 REQUIRED = ['endpoint_server', 'endpoint_client', 'endpoint_file', 'partial_send_requeued', 'accept_zero', 'eagain_injected', 'eintr_injected',
             'enobufs_injected', 'fatal_injected', 'close_while_buffered', 'close_after_drain', 'two_connections_interleaved', 'empty_payload',
-            'write_after_close_request', 'server_wide_close']
+            'write_after_close_request', 'server_wide_close', 'text_payload_multibyte']
 REQUIRED_OBLIGATIONS = ['PREFIX', 'ALL_DELIVERED', 'CLOSE_WAITS_FOR_BUFFER', 'NO_SEND_AFTER_CLOSE', 'FATAL_SIGNALLED', 'CLOSE_HAPPENS']
 WORKER_TIMEOUT = {'quick': 300, 'thorough': 1800}
-EXHAUSTIVE = {'quick': 'all send scripts of length <= 3 over 8 outcomes x 3 payload sets x 4 close positions x 3 endpoints',
-              'thorough': 'all send scripts of length <= 5 over 8 outcomes x 3 payload sets x 4 close positions x 3 endpoints'}
+EXHAUSTIVE = {'quick': 'all send scripts of length <= 3 over 8 outcomes x 3 payload sets (+ a multi-byte text set for File) x 4 close positions x 3 endpoints',
+              'thorough': 'all send scripts of length <= 5 over 8 outcomes x 3 payload sets (+ a multi-byte text set for File) x 4 close positions x 3 endpoints'}
 ENGINE = 'scripted-io'
 TECHNIQUE = 'fault injection: enumerated scripts of send() outcomes on a scripted socket / os.write double under the real endpoint components, byte-exact conservation oracle'
 LEVEL_TEXT = ('The real Server, TCPClient and File components run against a scripted socket (os.write for File) and a scripted poller; every '
@@ -49,7 +49,10 @@ PAYLOAD_SETS = {
     's': [b'a', b'BC', b'defgh'],
     'e': [b'', b'xy', b'', b'Z'],
     'm': [b'0123456789' * 30, b'q', b'ABCDEFGHIJ' * 7],
+    # text payloads (File only: a text-mode File is normally written with str); multi-byte characters so that byte and character counts differ
+    'u': ['\xe9\u20aca', 'ab', '\u20ac\u20ac\u20ac\u20ac\u20acx\xe9', 'na\xefve \u2014 text \U0001f600!'],
 }
+FILE_ENCODING = 'utf-8'
 
 
 class Script:
@@ -221,7 +224,7 @@ def make_world(endpoint, scripts):
         if not hasattr(fmod, 'fd_write'):
             raise LookupError('circuits.io.file.fd_write is gone')
         fmod.fd_write = fd_write
-        f = File(tmp.name, 'w', channel='fil').register(root)
+        f = File(tmp.name, 'w', encoding=FILE_ENCODING, channel='fil').register(root)
         settle()
         W.update(write=lambda i, d: (root.fire(iev.write(d), 'fil'), settle()),
                  close=lambda i: (root.fire(iev.close(), 'fil'), settle()), socks=[None], comp=f, chan='fil', tmp=tmp.name)
@@ -302,7 +305,11 @@ def run_case(case):
             if scripts[i].closed or (endpoint == 'file' and W['comp'].closed):
                 continue  # writing to an endpoint that already closed is C12's subject
             W['write'](i, data)
-            written[i] += data
+            if isinstance(data, str):
+                marks.add('text_payload_multibyte')
+                written[i] += data.encode(FILE_ENCODING)
+            else:
+                written[i] += data
             if case.get('pump_between', True) and n % 2 == 1:
                 W['pump']()
             ok = check_prefix('write %d' % n)
@@ -413,7 +420,7 @@ def enum_cases(maxlen, part, parts):
             if any(o in FATAL for o in script[:-1]):
                 continue
             for endpoint in ('server', 'client', 'file'):
-                for pset in ('s', 'e', 'm'):
+                for pset in ('s', 'e', 'm') + (('u',) if endpoint == 'file' else ()):
                     nsteps = len(PAYLOAD_SETS[pset])
                     for close_at in (None, 0, 1, nsteps - 1):
                         n += 1
@@ -434,6 +441,9 @@ def corpus():
         cs.append({'endpoint': endpoint, 'payloads': 's', 'script': ['A', 'ECONNRESET'], 'close_at': 2})
         cs.append({'endpoint': endpoint, 'payloads': 's', 'script': ['P', 'P', 'P', 'P', 'P', 'P'], 'close_at': None, 'big': True})
         cs.append({'endpoint': endpoint, 'payloads': 'm', 'script': ['Z', 'Z', 'P'], 'close_at': None, 'pump_between': False})
+    for script in (['P', 'P', 'P', 'P', 'P', 'P', 'P', 'P'], ['P', 'EAGAIN', 'P', 'Z', 'P', 'EINTR', 'P'], ['A', 'P', 'EPIPE']):
+        for close_at in (None, 1):
+            cs.append({'endpoint': 'file', 'payloads': 'u', 'script': script, 'close_at': close_at})
     for s1, s2 in ((['P', 'EAGAIN'], ['EINTR', 'P', 'Z']), (['EPIPE'], ['P', 'P']), (['ENOBUFS', 'P'], ['ECONNRESET'])):
         for close_at in (None, 1, 3):
             cs.append({'endpoint': 'server', 'two': True, 'payloads': 's', 'script': s1, 'script2': s2, 'close_at': close_at})
@@ -449,8 +459,9 @@ def gen_case(rng):
         script.append(o)
         if o in FATAL:
             break
-    pset = rng.choice('sem')
-    case = {'endpoint': rng.choice(['server', 'client', 'file']), 'payloads': pset, 'script': script,
+    endpoint = rng.choice(['server', 'client', 'file'])
+    pset = rng.choice('semu' if endpoint == 'file' else 'sem')
+    case = {'endpoint': endpoint, 'payloads': pset, 'script': script,
             'close_at': rng.choice([None, 0, 1, 2, len(PAYLOAD_SETS[pset]) - 1]), 'pump_between': rng.random() < 0.7}
     if case['endpoint'] == 'server' and rng.random() < 0.3:
         case['close_all'] = True
